@@ -270,8 +270,10 @@ def make_pool(rng):
         if has_inf:
             item["float_inf"] = np.vstack([arr, [[float(arr[0, 0]), np.inf]]])
         pool["dgm"].append(item)
-    for _ in range(4):
+    for gi in range(4):
         G, _ = OM.random_connected(rng, 7, 2)
+        if gi >= 2:      # irregular graphs on which the sampled upper bound really depends on the random draws
+            G = OM.random_tree(rng, int(rng.integers(10, 17)))
         form = int(rng.integers(0, 3))
         import scipy.sparse as sps
         pool["graph"].append([np.triu(G, 1).tolist(), G, sps.csr_matrix(G)][form])
